@@ -55,9 +55,15 @@ Bases(cls) ==
   CASE cls \in {"quantized_linear", "quantized_bits"} ->
          {<<>>, <<<<"bits", "i:4">>, <<"integer", "i:1">>>>, <<<<"bits", "i:4">>, <<"alpha", "s:auto">>>>,
           <<<<"bits", "i:4">>, <<"alpha", "s:auto_po2">>>>}
-    [] cls \in {"binary", "ternary", "stochastic_binary", "stochastic_ternary", "bernoulli"} ->
+         \cup (IF cls = "quantized_bits"      \* contexts in which elements_per_scale (int / list form) is admissible
+              THEN {<<<<"bits", "i:4">>, <<"alpha", "s:auto_po2">>, <<"scale_axis", "i:0">>>>,
+                    <<<<"bits", "i:4">>, <<"alpha", "s:auto_po2">>, <<"scale_axis", "l:0 1">>>>} ELSE {})
+    [] cls = "binary" -> {<<>>, <<<<"alpha", "s:auto">>>>, <<<<"alpha", "s:auto_po2">>>>,
+                          <<<<"alpha", "s:auto_po2">>, <<"scale_axis", "i:0">>>>, <<<<"alpha", "s:auto_po2">>, <<"scale_axis", "l:0 1">>>>}
+    [] cls \in {"ternary", "stochastic_binary", "stochastic_ternary", "bernoulli"} ->
          {<<>>, <<<<"alpha", "s:auto">>>>, <<<<"alpha", "s:auto_po2">>>>}
-    [] cls = "quantized_relu" -> {<<>>, <<<<"bits", "i:4">>, <<"integer", "i:1">>>>}
+    [] cls = "quantized_relu" -> {<<>>, <<<<"bits", "i:4">>, <<"integer", "i:1">>>>,
+                                  <<<<"bits", "i:4">>, <<"integer", "i:1">>, <<"is_quantized_clip", "b:0">>>>}   \* context in which relu_upper_bound acts
     [] cls \in {"quantized_po2", "quantized_relu_po2"} -> {<<>>, <<<<"bits", "i:4">>>>}
     [] cls = "quantized_hswish" -> {<<>>, <<<<"bits", "i:6">>, <<"integer", "i:2">>>>}
     [] OTHER -> {<<>>, <<<<"bits", "i:4">>>>}
@@ -83,7 +89,7 @@ Devs(cls) ==
     [] cls = "stochastic_binary" -> {<<"alpha", "f:2.0">>, <<"temperature", "f:1.5">>, <<"use_real_sigmoid", "b:0">>}
     [] cls = "quantized_relu" ->
          {<<"bits", "i:3">>, <<"integer", "i:2">>, <<"use_sigmoid", "i:1">>, <<"negative_slope", "f:0.25">>,
-          <<"use_stochastic_rounding", "b:1">>, <<"relu_upper_bound", "f:0.75">>, <<"is_quantized_clip", "b:0">>,
+          <<"use_stochastic_rounding", "b:1">>, <<"relu_upper_bound", "f:0.75">>, <<"relu_upper_bound", "f:1.5">>, <<"is_quantized_clip", "b:0">>,
           <<"qnoise_factor", "f:0.5">>, <<"use_ste", "b:0">>, <<"use_variables", "b:1">>}
     [] cls = "quantized_ulaw" -> {<<"bits", "i:3">>, <<"integer", "i:1">>, <<"symmetric", "i:1">>, <<"u", "f:15.0">>}
     [] cls = "quantized_tanh" -> {<<"bits", "i:3">>, <<"use_stochastic_rounding", "b:1">>, <<"symmetric", "b:1">>, <<"use_real_tanh", "b:1">>}
